@@ -47,6 +47,7 @@ class Registry:
         self.rec_classes = dict()  # record name -> python class names
         self.types   = dict()      # name -> Ty (for forall(..., 'Name'))
         self.finite  = list()      # finite (enumerated) obligations
+        self.sums    = dict()      # name -> (elemvar, [params], text, result type)
 
     # -- registration ------------------------------------------------------------
     def spec(reg, key, **kw):
@@ -80,6 +81,9 @@ class Registry:
         self.finite_checks = getattr(self, 'finite_checks', dict())
         self.finite_checks[name] = dict(name=name, fn=fn, serves=serves,
                                         what=what)
+
+    def define_sum(self, name, elemvar, params, text, rty):
+        self.sums[name] = (elemvar, list(params), text, rty)
 
     def define(self, sig, text):
         name, rest = sig.split('(')
